@@ -22,3 +22,14 @@ Print Assumptions C18_gen. Print Assumptions C18_colours.
 (** with the identity as shuffle: 3 vertices, 2 undirected edges is feasible, 4 is refused *)
 Example C18_instance : gen_graph (fun l => l) 3 2 true = Some ((0, 1) :: (0, 2) :: nil) /\ gen_graph (fun l => l) 3 4 true = None.
 Proof. split; vm_compute; reflexivity. Qed.
+
+(** the judge used on every real answer: [valid_output] accepts only admissible answers, and accepts every answer
+    the generator model can give, whatever permutation the shuffle returns *)
+From Rsbdd Require Import Gen.GenCheck.
+Theorem C18_judge_sound V E u out : valid_output V E u out = true ->
+  length out = E /\ NoDup out /\ (forall a b, In (a, b) out -> a <> b /\ a < V /\ b < V) /\
+  (u = true -> forall a b, In (a, b) out -> ~ In (b, a) out).
+Proof. exact (valid_output_sound V E u out). Qed.
+Theorem C18_judge_complete (shuffle : list Graph.edge -> list Graph.edge) : (forall l, Permutation (shuffle l) l) ->
+  forall V E u out, gen_graph shuffle V E u = Some out -> valid_output V E u out = true.
+Proof. exact (gen_graph_valid shuffle). Qed.
